@@ -44,8 +44,9 @@ static void sc_basic(void) {
     if (API("async_send", uv_async_send(&asy)) == 0) pend++;
     API("async_send", uv_async_send(&asy));
   }
-  run_pending();
+  if (run_pending()) goto end;
   if (uv_is_active((uv_handle_t*) &asy) && API("async_send", uv_async_send(&asy)) == 0) { pend++; run_pending(); }
+end:
   loop_end();
 }
 
@@ -54,7 +55,7 @@ struct st {
   union { uv_stream_t s; uv_tcp_t tcp; uv_pipe_t pipe; } srv, cli, acc;
   uv_connect_t creq; uv_write_t wreq[4]; uv_shutdown_t sreq, sreq2;
   int is_pipe, accepted, nread_acc, nread_cli, big, eof_cli, eof_acc;
-  size_t want_acc;
+  size_t want_acc; int want_cli, want_eof_acc, want_eof_cli;
 };
 static struct st S;
 static void st_read_acc(uv_stream_t* s, ssize_t n, const uv_buf_t* b) {
@@ -65,19 +66,17 @@ static void st_read_acc(uv_stream_t* s, ssize_t n, const uv_buf_t* b) {
     return;
   }
   if (n == 0) return;
-  cbev("read_acc", n);
   uv_read_stop(s);
-  if (S.want_acc) { S.want_acc = 0; pend--; }
-  if (!S.eof_acc) { S.eof_acc = 1; pend--; }
+  if (n == UV_EOF && S.want_eof_acc) { cbevx("read_acc", n); S.want_eof_acc = 0; pend--; }
+  else cbev("read_acc", n);
 }
 static void st_read_cli(uv_stream_t* s, ssize_t n, const uv_buf_t* b) {
   (void) b;
-  if (n > 0) { S.nread_cli += (int) n; if (S.nread_cli == 5) { ev("cb.read_cli=5"); pend--; } return; }
+  if (n > 0) { S.nread_cli += (int) n; if (S.want_cli && S.nread_cli >= S.want_cli) { ev("cb.read_cli=%d", S.nread_cli); S.want_cli = 0; pend--; } return; }
   if (n == 0) return;
-  cbev("read_cli", n);
   uv_read_stop(s);
-  if (S.nread_cli < 5) pend--;
-  if (!S.eof_cli) { S.eof_cli = 1; pend--; }
+  if (n == UV_EOF && S.want_eof_cli) { cbevx("read_cli", n); S.want_eof_cli = 0; pend--; }
+  else cbev("read_cli", n);
 }
 static void st_write_cb(uv_write_t* r, int st) { cbev(r == &S.wreq[0] ? "write0" : r == &S.wreq[1] ? "write1" : "write2", st); pend--; }
 static void st_shut_cb(uv_shutdown_t* r, int st) { cbev(r == &S.sreq ? "shutdown" : "shutdown2", st); pend--; }
@@ -92,10 +91,15 @@ static void st_conn_cb(uv_stream_t* srv, int st) {
   }
   pend--;
 }
-static void st_connect_cb(uv_connect_t* r, int st) { (void) r; cbev("connect", st); pend--; }
+static void st_connect_cb(uv_connect_t* r, int st) {
+  cbev("connect", st);
+  pend--;
+  /* reading from the start: a connection the server sheds (EMFILE) shows up here as EOF/ECONNRESET */
+  if (st == 0) API("read_start_cli", uv_read_start(r->handle, alloc_cb, st_read_cli));
+}
 
 static void stream_scenario(int is_pipe, int bigw) {
-  struct sockaddr_in a; int len = sizeof a; int ok;
+  struct sockaddr_in a; int len = sizeof a;
   uv_buf_t b[6];
   memset(&S, 0, sizeof S);
   S.is_pipe = is_pipe; S.big = bigw;
@@ -103,50 +107,49 @@ static void stream_scenario(int is_pipe, int bigw) {
   if (is_pipe) {
     API("pipe_init", uv_pipe_init(&L, &S.srv.pipe, 0));
     API("pipe_init", uv_pipe_init(&L, &S.cli.pipe, 0));
-    ok = API("pipe_bind", uv_pipe_bind(&S.srv.pipe, "p.sock")) == 0;
+    if (API("pipe_bind", uv_pipe_bind(&S.srv.pipe, "p.sock"))) goto end;
   } else {
     API("tcp_init", uv_tcp_init(&L, &S.srv.tcp));
     API("tcp_init", uv_tcp_init(&L, &S.cli.tcp));
     uv_ip4_addr("127.0.0.1", 0, &a);
-    ok = API("tcp_bind", uv_tcp_bind(&S.srv.tcp, (struct sockaddr*) &a, 0)) == 0;
+    if (API("tcp_bind", uv_tcp_bind(&S.srv.tcp, (struct sockaddr*) &a, 0))) goto end;
   }
-  if (ok) ok = API("listen", uv_listen(&S.srv.s, 8, st_conn_cb)) == 0;
-  if (ok && !is_pipe) {
-    ok = API("getsockname", uv_tcp_getsockname(&S.srv.tcp, (struct sockaddr*) &a, &len)) == 0;
+  if (API("listen", uv_listen(&S.srv.s, 8, st_conn_cb))) goto end;
+  if (!is_pipe) {
+    if (API("getsockname", uv_tcp_getsockname(&S.srv.tcp, (struct sockaddr*) &a, &len))) goto end;
     API("nodelay", uv_tcp_nodelay(&S.cli.tcp, 1));
     API("keepalive", uv_tcp_keepalive(&S.cli.tcp, 1, 60));
+    if (failed) goto end;
   }
-  if (ok) {
-    if (is_pipe) { api_begin("connect"); uv_pipe_connect(&S.creq, &S.cli.pipe, "p.sock", st_connect_cb); api_end("connect", 0, 0); pend += 2; }
-    else if (API("connect", uv_tcp_connect(&S.creq, &S.cli.tcp, (struct sockaddr*) &a, st_connect_cb)) == 0) pend += 2;
-    else ok = 0;
+  if (is_pipe) { api_begin("connect"); uv_pipe_connect(&S.creq, &S.cli.pipe, "p.sock", st_connect_cb); api_end("connect", 0, 0); pend += 2; }
+  else if (API("connect", uv_tcp_connect(&S.creq, &S.cli.tcp, (struct sockaddr*) &a, st_connect_cb)) == 0) pend += 2;
+  else goto end;
+  /* queued behind the connect */
+  b[0] = mkbuf("he"); b[1] = mkbuf("llo");
+  if (API("write0", uv_write(&S.wreq[0], &S.cli.s, b, 2, st_write_cb)) == 0) { pend += 2; S.want_acc = 5; }
+  if (run_pending() || !S.accepted) goto end;
+  if (bigw) {
+    /* 6 buffers (heap-allocated uv_buf_t array), large enough to fill the socket */
+    int i; for (i = 0; i < 6; i++) b[i] = uv_buf_init(big, sizeof big / 2);
+    S.want_acc = (size_t) S.nread_acc + 6 * (sizeof big / 2);
+    if (API("write1", uv_write(&S.wreq[1], &S.cli.s, b, 6, st_write_cb)) == 0) pend += 2; else goto end;
+    b[0] = mkbuf("x");
+    if (APIX("try_write", uv_try_write(&S.cli.s, b, 1)) == 1) S.want_acc++;
+    if (run_pending()) goto end;
   }
-  if (ok) {
-    /* queued behind the connect */
-    b[0] = mkbuf("he"); b[1] = mkbuf("llo");
-    if (API("write0", uv_write(&S.wreq[0], &S.cli.s, b, 2, st_write_cb)) == 0) { pend += 2; S.want_acc = 5; }
-    run_pending();
-  }
-  if (ok && S.accepted) {
-    if (bigw) {
-      /* 6 buffers (heap-allocated uv_buf_t array), large enough to fill the socket */
-      int i; for (i = 0; i < 6; i++) b[i] = uv_buf_init(big, sizeof big / 2);
-      S.want_acc = (size_t) S.nread_acc + 6 * (sizeof big / 2);
-      if (API("write1", uv_write(&S.wreq[1], &S.cli.s, b, 6, st_write_cb)) == 0) pend += 2; else S.want_acc = 0;
-      b[0] = mkbuf("x");
-      API("try_write", uv_try_write(&S.cli.s, b, 1));
-      run_pending();
-    }
-    API("read_start_cli", uv_read_start(&S.cli.s, alloc_cb, st_read_cli));
-    b[0] = mkbuf("world");
-    if (API("write2", uv_write(&S.wreq[2], &S.acc.s, b, 1, st_write_cb)) == 0) pend += 2;
-    run_pending();
-    API("try_write", uv_try_write(&S.acc.s, b, 1));
-    if (API("shutdown", uv_shutdown(&S.sreq, &S.cli.s, st_shut_cb)) == 0) pend += 2;   /* cb + EOF at acc */
-    run_pending();
-    if (API("shutdown2", uv_shutdown(&S.sreq2, &S.acc.s, st_shut_cb)) == 0) pend += 2;
-    run_pending();
-  }
+  b[0] = mkbuf("world");
+  S.want_cli = 5;
+  if (API("write2", uv_write(&S.wreq[2], &S.acc.s, b, 1, st_write_cb)) == 0) pend += 2; else goto end;
+  if (run_pending()) goto end;
+  S.want_cli = 10;
+  if (APIX("try_write", uv_try_write(&S.acc.s, b, 1)) == 5) { pend++; if (run_pending()) goto end; }
+  S.want_eof_acc = 1;
+  if (API("shutdown", uv_shutdown(&S.sreq, &S.cli.s, st_shut_cb)) == 0) pend += 2; else goto end;  /* cb + EOF at acc */
+  if (run_pending()) goto end;
+  S.want_eof_cli = 1;
+  if (API("shutdown2", uv_shutdown(&S.sreq2, &S.acc.s, st_shut_cb)) == 0) pend += 2; else goto end;
+  run_pending();
+end:
   loop_end();
 }
 static void sc_tcp(void) { stream_scenario(0, 0); }
@@ -155,6 +158,7 @@ static void sc_pipe(void) { stream_scenario(1, 0); }
 static void sc_pipe_big(void) { stream_scenario(1, 1); }
 
 /* ---- 6. tcp connect refused / open / simultaneous accepts ------------------------ */
+static void refused_cb(uv_connect_t* r, int st) { (void) r; if (st == UV_ECONNREFUSED) cbevx("connect", st); else cbev("connect", st); pend--; }
 static void sc_tcp_refused(void) {
   struct sockaddr_in a; int len = sizeof a; int fd;
   memset(&S, 0, sizeof S);
@@ -164,15 +168,15 @@ static void sc_tcp_refused(void) {
   /* a bound, not listening socket: connecting to it is refused */
   if (API("tcp_bind", uv_tcp_bind(&S.srv.tcp, (struct sockaddr*) &a, 0)) == 0 &&
       API("getsockname", uv_tcp_getsockname(&S.srv.tcp, (struct sockaddr*) &a, &len)) == 0) {
-    if (API("connect", uv_tcp_connect(&S.creq, &S.cli.tcp, (struct sockaddr*) &a, st_connect_cb)) == 0) pend++;
+    if (API("connect", uv_tcp_connect(&S.creq, &S.cli.tcp, (struct sockaddr*) &a, refused_cb)) == 0) pend++;
     run_pending();
   }
-  API("tcp_init_ex", uv_tcp_init_ex(&L, &S.acc.tcp, AF_INET));
+  APIX("tcp_init_ex", uv_tcp_init_ex(&L, &S.acc.tcp, AF_INET));
   fd = __real_socket(AF_INET, SOCK_STREAM, 0);
   if (fd >= 0) {
     uv_tcp_t* t = malloc(sizeof *t);
     uv_tcp_init(&L, t);
-    if (API("tcp_open", uv_tcp_open(t, fd)) != 0) __real_syscall(SYS_close, fd);
+    if (APIX("tcp_open", uv_tcp_open(t, fd)) != 0) __real_syscall(SYS_close, fd);
     uv_close((uv_handle_t*) t, (uv_close_cb) free);
   }
   loop_end();
@@ -190,6 +194,15 @@ static void mc_conn_cb(uv_stream_t* srv, int st) {
     else uv_close((uv_handle_t*) &mc_acc[mc_nacc], NULL);
   }
 }
+static void mc_read_cb(uv_stream_t* s, ssize_t n, const uv_buf_t* b) {
+  (void) b;
+  if (n < 0) { cbev("read_cli", n); uv_read_stop(s); }
+}
+static void mc_connect_cb(uv_connect_t* r, int st) {
+  cbev("connect", st);
+  pend--;
+  if (st == 0) uv_read_start(r->handle, alloc_cb, mc_read_cb);
+}
 static void sc_tcp_many(void) {
   struct sockaddr_in a; int len = sizeof a, i;
   memset(&S, 0, sizeof S); mc_nacc = 0;
@@ -201,7 +214,7 @@ static void sc_tcp_many(void) {
       API("getsockname", uv_tcp_getsockname(&S.srv.tcp, (struct sockaddr*) &a, &len)) == 0) {
     for (i = 0; i < NCONN; i++) {
       uv_tcp_init(&L, &mc_cli[i]);
-      if (API("connect", uv_tcp_connect(&mc_req[i], &mc_cli[i], (struct sockaddr*) &a, st_connect_cb)) == 0) pend += 2;
+      if (API("connect", uv_tcp_connect(&mc_req[i], &mc_cli[i], (struct sockaddr*) &a, mc_connect_cb)) == 0) pend += 2;
     }
     run_pending();
   }
@@ -224,72 +237,70 @@ static void sc_udp(void) {
   udp_got = 0;
   if (loop_begin()) return;
   API("udp_init", uv_udp_init(&L, &u1));
-  API("udp_init_ex", uv_udp_init_ex(&L, &u2, AF_INET | UV_UDP_RECVMMSG));
+  if (API("udp_init_ex", uv_udp_init_ex(&L, &u2, AF_INET | UV_UDP_RECVMMSG))) goto end;
   uv_ip4_addr("127.0.0.1", 0, &a);
-  if (API("udp_bind", uv_udp_bind(&u2, (struct sockaddr*) &a, 0)) == 0 &&
-      API("udp_getsockname", uv_udp_getsockname(&u2, (struct sockaddr*) &a, &len)) == 0 &&
-      API("udp_recv_start", uv_udp_recv_start(&u2, alloc_cb, udp_recv_cb)) == 0) {
-    for (i = 0; i < 6; i++) b[i] = mkbuf("ab");
-    /* 6 buffers: heap-allocated uv_buf_t array; the first send also binds u1 */
-    if (API("udp_send0", uv_udp_send(&us[0], &u1, b, 6, (struct sockaddr*) &a, udp_send_cb)) == 0) pend += 2;
-    if (API("udp_send1", uv_udp_send(&us[1], &u1, b, 1, (struct sockaddr*) &a, udp_send_cb)) == 0) pend += 2;
-    run_pending();
-    API("udp_try_send", uv_udp_try_send(&u1, b, 2, (struct sockaddr*) &a));
-    if (udp_got >= 0) { pend++; run_pending(); }
-    if (API("udp_connect", uv_udp_connect(&u1, (struct sockaddr*) &a)) == 0) {
-      if (API("udp_send2", uv_udp_send(&us[2], &u1, b, 1, NULL, udp_send_cb)) == 0) { pend += 2; run_pending(); }
-    }
-    API("udp_recv_stop", uv_udp_recv_stop(&u2));
-    API("send_queue", (int) uv_udp_get_send_queue_count(&u1));
-  }
+  if (API("udp_bind", uv_udp_bind(&u2, (struct sockaddr*) &a, 0)) ||
+      API("udp_getsockname", uv_udp_getsockname(&u2, (struct sockaddr*) &a, &len)) ||
+      API("udp_recv_start", uv_udp_recv_start(&u2, alloc_cb, udp_recv_cb))) goto end;
+  for (i = 0; i < 6; i++) b[i] = mkbuf("ab");
+  /* 6 buffers: heap-allocated uv_buf_t array; the first send also binds u1 */
+  if (API("udp_send0", uv_udp_send(&us[0], &u1, b, 6, (struct sockaddr*) &a, udp_send_cb)) == 0) pend += 2; else goto end;
+  if (API("udp_send1", uv_udp_send(&us[1], &u1, b, 1, (struct sockaddr*) &a, udp_send_cb)) == 0) pend += 2; else goto end;
+  if (run_pending()) goto end;
+  if (APIX("udp_try_send", uv_udp_try_send(&u1, b, 2, (struct sockaddr*) &a)) == 4) { pend++; if (run_pending()) goto end; }
+  if (API("udp_connect", uv_udp_connect(&u1, (struct sockaddr*) &a))) goto end;
+  if (API("udp_send2", uv_udp_send(&us[2], &u1, b, 1, NULL, udp_send_cb)) == 0) { pend += 2; if (run_pending()) goto end; }
+  API("udp_recv_stop", uv_udp_recv_stop(&u2));
+  API("send_queue", (int) uv_udp_get_send_queue_count(&u1));
+end:
   loop_end();
 }
 
-/* ---- 8. fs, synchronous ------------------------------------------------------------ */
+/* ---- 8. fs, synchronous: every operation is independent ----------------------------- */
 static void sc_fs_sync(void) {
   uv_fs_t r; uv_buf_t b[6]; int fd, i; char rb[64]; uv_dirent_t de; uv_dir_t* dir; uv_dirent_t ents[4];
   if (loop_begin()) return;
-  fd = APIK("fs_open", uv_fs_open(&L, &r, "f.txt", O_CREAT | O_RDWR, 0600, NULL)); uv_fs_req_cleanup(&r);
+  fd = APIXK("fs_open", uv_fs_open(&L, &r, "f.txt", O_CREAT | O_RDWR, 0600, NULL)); uv_fs_req_cleanup(&r);
   if (fd >= 0) {
     for (i = 0; i < 6; i++) b[i] = mkbuf("data");
-    API("fs_write", uv_fs_write(&L, &r, fd, b, 6, 0, NULL)); uv_fs_req_cleanup(&r);
-    API("fs_write_cur", uv_fs_write(&L, &r, fd, b, 1, -1, NULL)); uv_fs_req_cleanup(&r);
+    APIX("fs_write", uv_fs_write(&L, &r, fd, b, 6, 0, NULL)); uv_fs_req_cleanup(&r);
+    APIX("fs_write_cur", uv_fs_write(&L, &r, fd, b, 1, -1, NULL)); uv_fs_req_cleanup(&r);
     b[0] = uv_buf_init(rb, 10); b[1] = uv_buf_init(rb + 10, 10);
-    API("fs_read", uv_fs_read(&L, &r, fd, b, 2, 0, NULL)); uv_fs_req_cleanup(&r);
-    API("fs_read_cur", uv_fs_read(&L, &r, fd, b, 1, -1, NULL)); uv_fs_req_cleanup(&r);
-    API("fs_fstat", uv_fs_fstat(&L, &r, fd, NULL)); uv_fs_req_cleanup(&r);
-    API("fs_fsync", uv_fs_fsync(&L, &r, fd, NULL)); uv_fs_req_cleanup(&r);
-    API("fs_ftruncate", uv_fs_ftruncate(&L, &r, fd, 8, NULL)); uv_fs_req_cleanup(&r);
-    API("fs_close", uv_fs_close(&L, &r, fd, NULL)); uv_fs_req_cleanup(&r);
+    APIX("fs_read", uv_fs_read(&L, &r, fd, b, 2, 0, NULL)); uv_fs_req_cleanup(&r);
+    APIX("fs_read_cur", uv_fs_read(&L, &r, fd, b, 1, -1, NULL)); uv_fs_req_cleanup(&r);
+    APIX("fs_fstat", uv_fs_fstat(&L, &r, fd, NULL)); uv_fs_req_cleanup(&r);
+    APIX("fs_fsync", uv_fs_fsync(&L, &r, fd, NULL)); uv_fs_req_cleanup(&r);
+    APIX("fs_ftruncate", uv_fs_ftruncate(&L, &r, fd, 8, NULL)); uv_fs_req_cleanup(&r);
+    APIX("fs_close", uv_fs_close(&L, &r, fd, NULL)); uv_fs_req_cleanup(&r);
   }
-  API("fs_stat", uv_fs_stat(&L, &r, "f.txt", NULL)); uv_fs_req_cleanup(&r);
-  API("fs_lstat", uv_fs_lstat(&L, &r, "f.txt", NULL)); uv_fs_req_cleanup(&r);
-  API("fs_access", uv_fs_access(&L, &r, "f.txt", R_OK, NULL)); uv_fs_req_cleanup(&r);
-  API("fs_copyfile", uv_fs_copyfile(&L, &r, "f.txt", "g.txt", 0, NULL)); uv_fs_req_cleanup(&r);
-  API("fs_rename", uv_fs_rename(&L, &r, "g.txt", "h.txt", NULL)); uv_fs_req_cleanup(&r);
-  API("fs_symlink", uv_fs_symlink(&L, &r, "f.txt", "l.txt", 0, NULL)); uv_fs_req_cleanup(&r);
-  API("fs_readlink", uv_fs_readlink(&L, &r, "l.txt", NULL)); uv_fs_req_cleanup(&r);
-  API("fs_realpath", uv_fs_realpath(&L, &r, "l.txt", NULL)); uv_fs_req_cleanup(&r);
-  API("fs_mkdir", uv_fs_mkdir(&L, &r, "d", 0700, NULL)); uv_fs_req_cleanup(&r);
-  if (API("fs_scandir", uv_fs_scandir(&L, &r, ".", 0, NULL)) >= 0)
+  APIX("fs_stat", uv_fs_stat(&L, &r, "f.txt", NULL)); uv_fs_req_cleanup(&r);
+  APIX("fs_lstat", uv_fs_lstat(&L, &r, "f.txt", NULL)); uv_fs_req_cleanup(&r);
+  APIX("fs_access", uv_fs_access(&L, &r, "f.txt", R_OK, NULL)); uv_fs_req_cleanup(&r);
+  APIX("fs_copyfile", uv_fs_copyfile(&L, &r, "f.txt", "g.txt", 0, NULL)); uv_fs_req_cleanup(&r);
+  APIX("fs_rename", uv_fs_rename(&L, &r, "g.txt", "h.txt", NULL)); uv_fs_req_cleanup(&r);
+  APIX("fs_symlink", uv_fs_symlink(&L, &r, "f.txt", "l.txt", 0, NULL)); uv_fs_req_cleanup(&r);
+  APIX("fs_readlink", uv_fs_readlink(&L, &r, "l.txt", NULL)); uv_fs_req_cleanup(&r);
+  APIX("fs_realpath", uv_fs_realpath(&L, &r, "l.txt", NULL)); uv_fs_req_cleanup(&r);
+  APIX("fs_mkdir", uv_fs_mkdir(&L, &r, "d", 0700, NULL)); uv_fs_req_cleanup(&r);
+  if (APIX("fs_scandir", uv_fs_scandir(&L, &r, ".", 0, NULL)) >= 0)
     while (uv_fs_scandir_next(&r, &de) != UV_EOF) {}
   uv_fs_req_cleanup(&r);
-  if (API("fs_opendir", uv_fs_opendir(&L, &r, ".", NULL)) == 0) {
+  if (APIX("fs_opendir", uv_fs_opendir(&L, &r, ".", NULL)) == 0) {
     dir = r.ptr; uv_fs_req_cleanup(&r);
     dir->dirents = ents; dir->nentries = 4;
-    API("fs_readdir", uv_fs_readdir(&L, &r, dir, NULL)); uv_fs_req_cleanup(&r);
-    API("fs_closedir", uv_fs_closedir(&L, &r, dir, NULL)); uv_fs_req_cleanup(&r);
+    APIX("fs_readdir", uv_fs_readdir(&L, &r, dir, NULL)); uv_fs_req_cleanup(&r);
+    APIX("fs_closedir", uv_fs_closedir(&L, &r, dir, NULL)); uv_fs_req_cleanup(&r);
   } else uv_fs_req_cleanup(&r);
-  API("fs_rmdir", uv_fs_rmdir(&L, &r, "d", NULL)); uv_fs_req_cleanup(&r);
-  API("fs_mkdtemp", uv_fs_mkdtemp(&L, &r, "tXXXXXX", NULL)); uv_fs_req_cleanup(&r);
-  fd = APIK("fs_mkstemp", uv_fs_mkstemp(&L, &r, "sXXXXXX", NULL)); uv_fs_req_cleanup(&r);
-  if (fd >= 0) { API("fs_close", uv_fs_close(&L, &r, fd, NULL)); uv_fs_req_cleanup(&r); }
-  API("fs_statfs", uv_fs_statfs(&L, &r, ".", NULL)); uv_fs_req_cleanup(&r);
-  API("fs_utime", uv_fs_utime(&L, &r, "f.txt", 1.0, 2.0, NULL)); uv_fs_req_cleanup(&r);
-  API("fs_chmod", uv_fs_chmod(&L, &r, "f.txt", 0600, NULL)); uv_fs_req_cleanup(&r);
-  API("fs_unlink", uv_fs_unlink(&L, &r, "h.txt", NULL)); uv_fs_req_cleanup(&r);
-  API("fs_unlink", uv_fs_unlink(&L, &r, "l.txt", NULL)); uv_fs_req_cleanup(&r);
-  API("fs_unlink", uv_fs_unlink(&L, &r, "f.txt", NULL)); uv_fs_req_cleanup(&r);
+  APIX("fs_rmdir", uv_fs_rmdir(&L, &r, "d", NULL)); uv_fs_req_cleanup(&r);
+  APIX("fs_mkdtemp", uv_fs_mkdtemp(&L, &r, "tXXXXXX", NULL)); uv_fs_req_cleanup(&r);
+  fd = APIXK("fs_mkstemp", uv_fs_mkstemp(&L, &r, "sXXXXXX", NULL)); uv_fs_req_cleanup(&r);
+  if (fd >= 0) { APIX("fs_close", uv_fs_close(&L, &r, fd, NULL)); uv_fs_req_cleanup(&r); }
+  APIX("fs_statfs", uv_fs_statfs(&L, &r, ".", NULL)); uv_fs_req_cleanup(&r);
+  APIX("fs_utime", uv_fs_utime(&L, &r, "f.txt", 1.0, 2.0, NULL)); uv_fs_req_cleanup(&r);
+  APIX("fs_chmod", uv_fs_chmod(&L, &r, "f.txt", 0600, NULL)); uv_fs_req_cleanup(&r);
+  APIX("fs_unlink", uv_fs_unlink(&L, &r, "h.txt", NULL)); uv_fs_req_cleanup(&r);
+  APIX("fs_unlink", uv_fs_unlink(&L, &r, "l.txt", NULL)); uv_fs_req_cleanup(&r);
+  APIX("fs_unlink", uv_fs_unlink(&L, &r, "f.txt", NULL)); uv_fs_req_cleanup(&r);
   loop_end();
 }
 
@@ -299,7 +310,8 @@ static void fs_cb(uv_fs_t* r) { fs_res = (int) r->result; pend--; }
 static int fs_wait(const char* name, int rc, int keep) {
   if (rc < 0) { uv_fs_req_cleanup(&fr); return rc; }
   pend++;
-  run_pending();
+  fs_res = UV_UNKNOWN;
+  if (run_pending()) return UV_UNKNOWN;
   if (fs_res < 0) ev("cb.%s=%s", name, uv_err_name(fs_res)); else if (keep) ev("cb.%s=ok", name); else ev("cb.%s=%d", name, fs_res);
   if (!keep) uv_fs_req_cleanup(&fr);
   return fs_res;
@@ -307,39 +319,40 @@ static int fs_wait(const char* name, int rc, int keep) {
 static void sc_fs_async(void) {
   uv_buf_t b[6]; int fd, i; char rb[64]; uv_dirent_t de; uv_dir_t* dir; uv_dirent_t ents[4];
   if (loop_begin()) return;
-  fd = fs_wait("fs_open", API("fs_open", uv_fs_open(&L, &fr, "f.txt", O_CREAT | O_RDWR, 0600, fs_cb)), 1); uv_fs_req_cleanup(&fr);
+  fd = fs_wait("fs_open", APIX("fs_open", uv_fs_open(&L, &fr, "f.txt", O_CREAT | O_RDWR, 0600, fs_cb)), 1); uv_fs_req_cleanup(&fr);
   if (fd >= 0) {
     for (i = 0; i < 6; i++) b[i] = mkbuf("data");
-    fs_wait("fs_write", API("fs_write", uv_fs_write(&L, &fr, fd, b, 6, 0, fs_cb)), 0);
+    fs_wait("fs_write", APIX("fs_write", uv_fs_write(&L, &fr, fd, b, 6, 0, fs_cb)), 0);
     b[0] = uv_buf_init(rb, 10); b[1] = uv_buf_init(rb + 10, 10);
-    fs_wait("fs_read", API("fs_read", uv_fs_read(&L, &fr, fd, b, 2, 0, fs_cb)), 0);
+    fs_wait("fs_read", APIX("fs_read", uv_fs_read(&L, &fr, fd, b, 2, 0, fs_cb)), 0);
     for (i = 0; i < 6; i++) b[i] = uv_buf_init(rb + i, 1);
-    fs_wait("fs_read6", API("fs_read6", uv_fs_read(&L, &fr, fd, b, 6, 0, fs_cb)), 0);
-    fs_wait("fs_fstat", API("fs_fstat", uv_fs_fstat(&L, &fr, fd, fs_cb)), 0);
-    fs_wait("fs_close", API("fs_close", uv_fs_close(&L, &fr, fd, fs_cb)), 0);
+    fs_wait("fs_read6", APIX("fs_read6", uv_fs_read(&L, &fr, fd, b, 6, 0, fs_cb)), 0);
+    fs_wait("fs_fstat", APIX("fs_fstat", uv_fs_fstat(&L, &fr, fd, fs_cb)), 0);
+    if (fs_wait("fs_close", APIX("fs_close", uv_fs_close(&L, &fr, fd, fs_cb)), 0) == UV_ENOMEM)
+      __real_syscall(SYS_close, fd);       /* the request was refused: still ours */
   }
-  fs_wait("fs_stat", API("fs_stat", uv_fs_stat(&L, &fr, "f.txt", fs_cb)), 0);
-  fs_wait("fs_copyfile", API("fs_copyfile", uv_fs_copyfile(&L, &fr, "f.txt", "g.txt", 0, fs_cb)), 0);
-  fs_wait("fs_rename", API("fs_rename", uv_fs_rename(&L, &fr, "g.txt", "h.txt", fs_cb)), 0);
-  fs_wait("fs_readlink", API("fs_readlink", uv_fs_readlink(&L, &fr, "nolink", fs_cb)), 0);
-  fs_wait("fs_realpath", API("fs_realpath", uv_fs_realpath(&L, &fr, "f.txt", fs_cb)), 0);
-  fs_wait("fs_mkdir", API("fs_mkdir", uv_fs_mkdir(&L, &fr, "d", 0700, fs_cb)), 0);
-  if (fs_wait("fs_scandir", API("fs_scandir", uv_fs_scandir(&L, &fr, ".", 0, fs_cb)), 1) >= 0)
+  fs_wait("fs_stat", APIX("fs_stat", uv_fs_stat(&L, &fr, "f.txt", fs_cb)), 0);
+  fs_wait("fs_copyfile", APIX("fs_copyfile", uv_fs_copyfile(&L, &fr, "f.txt", "g.txt", 0, fs_cb)), 0);
+  fs_wait("fs_rename", APIX("fs_rename", uv_fs_rename(&L, &fr, "g.txt", "h.txt", fs_cb)), 0);
+  fs_wait("fs_readlink", APIX("fs_readlink", uv_fs_readlink(&L, &fr, "nolink", fs_cb)), 0);
+  fs_wait("fs_realpath", APIX("fs_realpath", uv_fs_realpath(&L, &fr, "f.txt", fs_cb)), 0);
+  fs_wait("fs_mkdir", APIX("fs_mkdir", uv_fs_mkdir(&L, &fr, "d", 0700, fs_cb)), 0);
+  if (fs_wait("fs_scandir", APIX("fs_scandir", uv_fs_scandir(&L, &fr, ".", 0, fs_cb)), 1) >= 0)
     while (uv_fs_scandir_next(&fr, &de) != UV_EOF) {}
   uv_fs_req_cleanup(&fr);
-  if (fs_wait("fs_opendir", API("fs_opendir", uv_fs_opendir(&L, &fr, ".", fs_cb)), 1) == 0) {
+  if (fs_wait("fs_opendir", APIX("fs_opendir", uv_fs_opendir(&L, &fr, ".", fs_cb)), 1) == 0) {
     dir = fr.ptr; uv_fs_req_cleanup(&fr);
     dir->dirents = ents; dir->nentries = 4;
-    fs_wait("fs_readdir", API("fs_readdir", uv_fs_readdir(&L, &fr, dir, fs_cb)), 0);
-    if (fs_wait("fs_closedir", API("fs_closedir", uv_fs_closedir(&L, &fr, dir, fs_cb)), 0) < 0) {
+    fs_wait("fs_readdir", APIX("fs_readdir", uv_fs_readdir(&L, &fr, dir, fs_cb)), 0);
+    if (fs_wait("fs_closedir", APIX("fs_closedir", uv_fs_closedir(&L, &fr, dir, fs_cb)), 0) < 0) {
       /* the request never ran: the directory stream is still ours to release */
       uv_fs_t r2; uv_fs_closedir(&L, &r2, dir, NULL); uv_fs_req_cleanup(&r2);
     }
   } else uv_fs_req_cleanup(&fr);
-  fs_wait("fs_rmdir", API("fs_rmdir", uv_fs_rmdir(&L, &fr, "d", fs_cb)), 0);
-  fs_wait("fs_mkdtemp", API("fs_mkdtemp", uv_fs_mkdtemp(&L, &fr, "tXXXXXX", fs_cb)), 0);
-  fs_wait("fs_unlink", API("fs_unlink", uv_fs_unlink(&L, &fr, "h.txt", fs_cb)), 0);
-  fs_wait("fs_unlink", API("fs_unlink", uv_fs_unlink(&L, &fr, "f.txt", fs_cb)), 0);
+  fs_wait("fs_rmdir", APIX("fs_rmdir", uv_fs_rmdir(&L, &fr, "d", fs_cb)), 0);
+  fs_wait("fs_mkdtemp", APIX("fs_mkdtemp", uv_fs_mkdtemp(&L, &fr, "tXXXXXX", fs_cb)), 0);
+  fs_wait("fs_unlink", APIX("fs_unlink", uv_fs_unlink(&L, &fr, "h.txt", fs_cb)), 0);
+  fs_wait("fs_unlink", APIX("fs_unlink", uv_fs_unlink(&L, &fr, "f.txt", fs_cb)), 0);
   loop_end();
 }
 
@@ -364,14 +377,15 @@ static void sc_fs_event(void) {
   if (API("fs_event_start", uv_fs_event_start(&fe1, fe_cb, "w", 0)) == 0) {
     API("fs_event_getpath", uv_fs_event_getpath(&fe1, buf, &sz));
     /* second watcher on the same directory: same wd, shared watcher_list */
-    API("fs_event_start2", uv_fs_event_start(&fe2, fe_cb, "w", 0));
+    APIX("fs_event_start2", uv_fs_event_start(&fe2, fe_cb, "w", 0));
     pend++;
     touch("w/a");
-    run_pending();
+    if (run_pending()) goto end;
     API("fs_event_stop", uv_fs_event_stop(&fe1));
     API("fs_event_stop", uv_fs_event_stop(&fe2));
     API("fs_event_restart", uv_fs_event_start(&fe1, fe_cb, ".", 0));
   }
+end:
   loop_end();
 }
 
@@ -379,7 +393,7 @@ static void sc_fs_event(void) {
 static uv_fs_poll_t fp1; static int fp_n;
 static void fp_cb(uv_fs_poll_t* h, int st, const uv_stat_t* p, const uv_stat_t* c) {
   (void) h; (void) p; (void) c;
-  if (fp_n++ == 0) { cbev("fs_poll", st); pend--; }
+  if (fp_n++ == 0) { if (st == UV_ENOENT) cbevx("fs_poll", st); else cbev("fs_poll", st); pend--; }
 }
 static void sc_fs_poll(void) {
   char buf[256]; size_t sz = sizeof buf;
@@ -390,13 +404,14 @@ static void sc_fs_poll(void) {
   if (API("fs_poll_start", uv_fs_poll_start(&fp1, fp_cb, "missing", 5)) == 0) {
     API("fs_poll_getpath", uv_fs_poll_getpath(&fp1, buf, &sz));
     pend++;
-    run_pending();
+    if (run_pending()) goto end;
     /* let the timer re-arm and a second stat run */
     uv_timer_init(&L, &t1);
-    if (uv_timer_start(&t1, t_cb, 25, 0) == 0) { pend++; run_pending(); }
+    if (uv_timer_start(&t1, t_cb, 25, 0) == 0) { pend++; if (run_pending()) goto end; }
     API("fs_poll_stop", uv_fs_poll_stop(&fp1));
     API("fs_poll_restart", uv_fs_poll_start(&fp1, fp_cb, ".", 5));
   }
+end:
   loop_end();
 }
 
@@ -407,11 +422,12 @@ static void sp_read_cb(uv_stream_t* s, ssize_t n, const uv_buf_t* b) {
   (void) b;
   if (n > 0) { sp_read += (int) n; return; }
   if (n == 0) return;
-  ev("cb.child_out=%d/%s", sp_read, uv_err_name((int) n));
+  ev("cb.child_out=%d", sp_read);
+  if (n == UV_EOF) cbevx("child_eof", n); else cbev("child_eof", n);
   uv_read_stop(s);
   pend--;
 }
-static void spawn_scenario(const char* file, const char* mode, int nstdio) {
+static void spawn_scenario(const char* file, const char* mode, int nstdio, int expect_fail) {
   uv_process_options_t o; uv_stdio_container_t io[12]; char* args[5]; int i, rc;
   sp_read = 0;
   if (loop_begin()) return;
@@ -424,17 +440,20 @@ static void spawn_scenario(const char* file, const char* mode, int nstdio) {
   io[0].flags = UV_CREATE_PIPE | UV_READABLE_PIPE; io[0].data.stream = (uv_stream_t*) &pin;
   io[1].flags = UV_CREATE_PIPE | UV_WRITABLE_PIPE; io[1].data.stream = (uv_stream_t*) &pout;
   io[2].flags = UV_INHERIT_FD; io[2].data.fd = 2;
-  rc = API("spawn", uv_spawn(&L, &proc, &o));
+  rc = expect_fail ? APIX("spawn", uv_spawn(&L, &proc, &o)) : API("spawn", uv_spawn(&L, &proc, &o));
   if (rc == 0) pend++;
-  if (uv_is_readable((uv_stream_t*) &pout) && API("read_start", uv_read_start((uv_stream_t*) &pout, alloc_cb, sp_read_cb)) == 0) pend++;
-  if (rc == 0) API("process_kill0", uv_process_kill(&proc, 0));
-  if (uv_is_writable((uv_stream_t*) &pin)) uv_close((uv_handle_t*) &pin, NULL);
-  run_pending();
+  /* on failure the stdio streams may have been opened all the same: they are closed in the epilogue */
+  if (rc == 0 || expect_fail) {
+    if (uv_is_readable((uv_stream_t*) &pout) && API("read_start", uv_read_start((uv_stream_t*) &pout, alloc_cb, sp_read_cb)) == 0) pend++;
+    if (rc == 0) API("process_kill0", uv_process_kill(&proc, 0));
+    if (uv_is_writable((uv_stream_t*) &pin)) uv_close((uv_handle_t*) &pin, NULL);
+    run_pending();
+  }
   loop_end();
 }
-static void sc_spawn(void) { spawn_scenario(self_exe, "echo", 3); }
-static void sc_spawn_fail(void) { spawn_scenario("/nonexistent/program", "echo", 3); }
-static void sc_spawn_many(void) { spawn_scenario(self_exe, "cat", 10); }
+static void sc_spawn(void) { spawn_scenario(self_exe, "echo", 3, 0); }
+static void sc_spawn_fail(void) { spawn_scenario("/nonexistent/program", "echo", 3, 1); }
+static void sc_spawn_many(void) { spawn_scenario(self_exe, "cat", 10, 0); }
 
 /* ---- 13. signal ------------------------------------------------------------------------------------ */
 static uv_signal_t sg1, sg2;
@@ -447,11 +466,12 @@ static void sc_signal(void) {
     if (API("signal_start_oneshot", uv_signal_start_oneshot(&sg2, sig_cb, SIGUSR2)) == 0) { pend++; kill(getpid(), SIGUSR2); }
     pend++;
     kill(getpid(), SIGUSR1);
-    run_pending();
+    if (run_pending()) goto end;
     API("signal_stop", uv_signal_stop(&sg1));
     API("signal_restart", uv_signal_start(&sg1, sig_cb, SIGUSR1));
     API("signal_stop", uv_signal_stop(&sg1));
   }
+end:
   loop_end();
 }
 
@@ -464,38 +484,38 @@ static void sc_dns(void) {
   if (loop_begin()) return;
   memset(&hints, 0, sizeof hints);
   hints.ai_flags = AI_NUMERICHOST | AI_NUMERICSERV; hints.ai_family = AF_INET; hints.ai_socktype = SOCK_STREAM;
-  if (API("getaddrinfo", uv_getaddrinfo(&L, &gai, gai_cb, "127.0.0.1", "80", &hints)) == 0) { pend++; run_pending(); }
-  rc = API("getaddrinfo_sync", uv_getaddrinfo(&L, &gai, NULL, "127.0.0.1", NULL, &hints));
+  if (APIX("getaddrinfo", uv_getaddrinfo(&L, &gai, gai_cb, "127.0.0.1", "80", &hints)) == 0) { pend++; if (run_pending()) goto end; }
+  rc = APIX("getaddrinfo_sync", uv_getaddrinfo(&L, &gai, NULL, "127.0.0.1", NULL, &hints));
   if (rc == 0) uv_freeaddrinfo(gai.addrinfo);
   /* a non-ASCII name goes through IDNA first; numeric-host makes the lookup itself fail fast */
-  rc = API("getaddrinfo_idna", uv_getaddrinfo(&L, &gai, NULL, "b\xc3\xbc" "cher.example", NULL, &hints));
+  rc = APIX("getaddrinfo_idna", uv_getaddrinfo(&L, &gai, NULL, "b\xc3\xbc" "cher.example", NULL, &hints));
   if (rc == 0) uv_freeaddrinfo(gai.addrinfo);
   uv_ip4_addr("127.0.0.1", 80, &a);
-  if (API("getnameinfo", uv_getnameinfo(&L, &gni, gni_cb, (struct sockaddr*) &a, NI_NUMERICHOST | NI_NUMERICSERV)) == 0) { pend++; run_pending(); }
-  API("getnameinfo_sync", uv_getnameinfo(&L, &gni, NULL, (struct sockaddr*) &a, NI_NUMERICHOST | NI_NUMERICSERV));
+  if (APIX("getnameinfo", uv_getnameinfo(&L, &gni, gni_cb, (struct sockaddr*) &a, NI_NUMERICHOST | NI_NUMERICSERV)) == 0) { pend++; if (run_pending()) goto end; }
+  APIX("getnameinfo_sync", uv_getnameinfo(&L, &gni, NULL, (struct sockaddr*) &a, NI_NUMERICHOST | NI_NUMERICSERV));
+end:
   loop_end();
 }
 
 /* ---- 15. os getters ---------------------------------------------------------------------------------------- */
 static void sc_os(void) {
   uv_env_item_t* items; int n; char buf[1024]; size_t sz; uv_passwd_t pw; uv_utsname_t un; uv_group_t gr;
-  /* no loop needed, but one is created so that the common epilogue runs */
-  if (API("os_environ", uv_os_environ(&items, &n)) == 0) { ev("environ_n=%s", n > 3 ? "ok" : "few"); uv_os_free_environ(items, n); }
-  sz = sizeof buf; API("os_getenv", uv_os_getenv("C16_VAR", buf, &sz));
-  API("os_setenv", uv_os_setenv("C16_VAR2", "x"));
-  API("os_unsetenv", uv_os_unsetenv("C16_VAR2"));
-  sz = sizeof buf; API("cwd", uv_cwd(buf, &sz));
-  sz = sizeof buf; API("os_homedir", uv_os_homedir(buf, &sz));
-  sz = sizeof buf; API("os_tmpdir", uv_os_tmpdir(buf, &sz));
-  sz = sizeof buf; API("os_gethostname", uv_os_gethostname(buf, &sz));
-  sz = sizeof buf; API("exepath", uv_exepath(buf, &sz));
-  if (API("os_get_passwd", uv_os_get_passwd(&pw)) == 0) uv_os_free_passwd(&pw);
-  if (API("os_get_passwd2", uv_os_get_passwd2(&pw, 0)) == 0) uv_os_free_passwd(&pw);
-  if (API("os_get_group", uv_os_get_group(&gr, 0)) == 0) uv_os_free_group(&gr);
-  API("os_uname", uv_os_uname(&un));
-  API("chdir", uv_chdir("."));
+  if (APIX("os_environ", uv_os_environ(&items, &n)) == 0) { ev("environ_n=%s", n > 3 ? "ok" : "few"); uv_os_free_environ(items, n); }
+  sz = sizeof buf; APIX("os_getenv", uv_os_getenv("C16_VAR", buf, &sz));
+  APIX("os_setenv", uv_os_setenv("C16_VAR2", "x"));
+  APIX("os_unsetenv", uv_os_unsetenv("C16_VAR2"));
+  sz = sizeof buf; APIX("cwd", uv_cwd(buf, &sz));
+  sz = sizeof buf; APIX("os_homedir", uv_os_homedir(buf, &sz));
+  sz = sizeof buf; APIX("os_tmpdir", uv_os_tmpdir(buf, &sz));
+  sz = sizeof buf; APIX("os_gethostname", uv_os_gethostname(buf, &sz));
+  sz = sizeof buf; APIX("exepath", uv_exepath(buf, &sz));
+  if (APIX("os_get_passwd", uv_os_get_passwd(&pw)) == 0) uv_os_free_passwd(&pw);
+  if (APIX("os_get_passwd2", uv_os_get_passwd2(&pw, 0)) == 0) uv_os_free_passwd(&pw);
+  if (APIX("os_get_group", uv_os_get_group(&gr, 0)) == 0) uv_os_free_group(&gr);
+  APIX("os_uname", uv_os_uname(&un));
+  APIX("chdir", uv_chdir("."));
   unsetenv("HOME");
-  sz = sizeof buf; API("os_homedir_pw", uv_os_homedir(buf, &sz));
+  sz = sizeof buf; APIX("os_homedir_pw", uv_os_homedir(buf, &sz));
 }
 
 /* ---- 16. queue_work / cancel / random ------------------------------------------------------------------------ */
@@ -508,9 +528,10 @@ static void sc_work(void) {
   if (loop_begin()) return;
   if (API("queue_work", uv_queue_work(&L, &wk[0], work_cb, after_cb)) == 0) pend++;
   if (API("queue_work", uv_queue_work(&L, &wk[1], work_cb, after_cb)) == 0) pend++;
-  run_pending();
-  API("random_sync", uv_random(NULL, NULL, b, sizeof b, 0, NULL));
+  if (run_pending()) goto end;
+  APIX("random_sync", uv_random(NULL, NULL, b, sizeof b, 0, NULL));
   if (API("random", uv_random(&L, &rnd, b, sizeof b, 0, rnd_cb)) == 0) { pend++; run_pending(); }
+end:
   loop_end();
 }
 
@@ -520,19 +541,19 @@ static void poll_cb(uv_poll_t* h, int st, int events) { cbev("poll", st < 0 ? st
 static void sc_pairs(void) {
   uv_file f[2]; uv_os_sock_t s[2]; uv_buf_t b; int k;
   if (loop_begin()) return;
-  if (API("pipe", uv_pipe(f, UV_NONBLOCK_PIPE, UV_NONBLOCK_PIPE)) == 0) {
+  if (APIX("pipe", uv_pipe(f, UV_NONBLOCK_PIPE, UV_NONBLOCK_PIPE)) == 0) {
     uv_pipe_init(&L, &po1, 0); uv_pipe_init(&L, &po2, 0);
-    k = API("pipe_open", uv_pipe_open(&po1, f[0]));
+    k = APIX("pipe_open", uv_pipe_open(&po1, f[0]));
     if (k != 0) __real_syscall(SYS_close, f[0]);
-    k = API("pipe_open", uv_pipe_open(&po2, f[1]));
+    k = APIX("pipe_open", uv_pipe_open(&po2, f[1]));
     if (k != 0) __real_syscall(SYS_close, f[1]);
     else {
       b = mkbuf("ping");
-      API("try_write", uv_try_write((uv_stream_t*) &po2, &b, 1));
+      APIX("try_write", uv_try_write((uv_stream_t*) &po2, &b, 1));
     }
   }
-  if (API("socketpair", uv_socketpair(SOCK_STREAM, 0, s, UV_NONBLOCK_PIPE, UV_NONBLOCK_PIPE)) == 0) {
-    if (API("poll_init", uv_poll_init_socket(&L, &pl, s[0])) == 0) {
+  if (APIX("socketpair", uv_socketpair(SOCK_STREAM, 0, s, UV_NONBLOCK_PIPE, UV_NONBLOCK_PIPE)) == 0) {
+    if (APIX("poll_init", uv_poll_init_socket(&L, &pl, s[0])) == 0) {
       if (API("poll_start", uv_poll_start(&pl, UV_READABLE | UV_WRITABLE, poll_cb)) == 0) { pend++; run_pending(); }
       uv_close((uv_handle_t*) &pl, NULL);
       run_nowait(2);
@@ -548,7 +569,7 @@ static void ip_write_cb(uv_write_t* r, int st) { (void) r; cbev("write2", st); p
 static void ip_read_cb(uv_stream_t* s, ssize_t n, const uv_buf_t* b) {
   (void) b;
   if (n == 0) return;
-  if (n < 0) { cbev("ipc_read", n); uv_read_stop(s); if (!ip_got) { ip_got = 1; pend--; } return; }
+  if (n < 0) { cbev("ipc_read", n); uv_read_stop(s); return; }
   ev("cb.ipc_read=%ld", (long) n);
   while (uv_pipe_pending_count((uv_pipe_t*) s) > 0) {
     uv_handle_type t = uv_pipe_pending_type((uv_pipe_t*) s);
@@ -581,20 +602,21 @@ static void sc_ipc(void) {
 static void sc_sysinfo(void) {
   uv_interface_address_t* ia; int n; uv_cpu_info_t* ci; double up; size_t rss; uv_rusage_t ru; double la[3];
   char name[64]; size_t sz = sizeof name; uv_lib_t lib;
-  if (API("interface_addresses", uv_interface_addresses(&ia, &n)) == 0) { ev("ifaces=%s", n > 0 ? "some" : "none"); uv_free_interface_addresses(ia, n); }
-  if (API("cpu_info", uv_cpu_info(&ci, &n)) == 0) { ev("cpus=%s", n > 0 ? "some" : "none"); uv_free_cpu_info(ci, n); }
-  API("uptime", uv_uptime(&up));
-  API("resident_set_memory", uv_resident_set_memory(&rss));
-  API("getrusage", uv_getrusage(&ru));
+  if (APIX("interface_addresses", uv_interface_addresses(&ia, &n)) == 0) { ev("ifaces=%s", n > 0 ? "some" : "none"); uv_free_interface_addresses(ia, n); }
+  if (APIX("cpu_info", uv_cpu_info(&ci, &n)) == 0) { ev("cpus=%s", n > 0 ? "some" : "none"); uv_free_cpu_info(ci, n); }
+  APIX("uptime", uv_uptime(&up));
+  APIX("resident_set_memory", uv_resident_set_memory(&rss));
+  APIX("getrusage", uv_getrusage(&ru));
   uv_loadavg(la);
-  ev("free_memory=%s", uv_get_free_memory() > 0 ? "pos" : "zero");
-  ev("constrained=%s", uv_get_constrained_memory() >= 0 ? "ok" : "neg");
-  ev("available=%s", uv_get_available_memory() > 0 ? "pos" : "zero");
-  ev("parallelism=%s", uv_available_parallelism() > 0 ? "pos" : "zero");
-  API("if_indextoname", uv_if_indextoname(1, name, &sz));
-  if (API("dlopen_missing", uv_dlopen("/nonexistent.so", &lib)) != 0) { ev("dlerror=%s", uv_dlerror(&lib)[0] ? "text" : "empty"); }
+  /* no error channel: informational only */
+  ev("info.free_memory=%s", uv_get_free_memory() > 0 ? "pos" : "zero");
+  ev("info.constrained=%s", uv_get_constrained_memory() >= 0 ? "ok" : "neg");
+  ev("info.available=%s", uv_get_available_memory() > 0 ? "pos" : "zero");
+  ev("info.parallelism=%s", uv_available_parallelism() > 0 ? "pos" : "zero");
+  APIX("if_indextoname", uv_if_indextoname(1, name, &sz));
+  if (APIX("dlopen_missing", uv_dlopen("/nonexistent.so", &lib)) != 0) { ev("dlerror=%s", uv_dlerror(&lib)[0] ? "text" : "empty"); }
   uv_dlclose(&lib);
-  API("hrtime", uv_hrtime() > 0 ? 0 : -1);
+  APIX("hrtime", uv_hrtime() > 0 ? 0 : -1);
 }
 
 /* ---- 20. unit scenarios of the modelled entry points ------------------------------------------------------------------
@@ -627,7 +649,7 @@ static int unit_begin(void) {
   r = uv_loop_init(&L);
   if (r) return r;
   loop_ok = 1;
-  uv_timer_init(&L, &wd); uv_timer_start(&wd, wd_cb, 4000, 0); uv_unref((uv_handle_t*) &wd); wd_on = 1;
+  uv_timer_init(&L, &wd); uv_timer_start(&wd, wd_cb, 2000, 0); uv_unref((uv_handle_t*) &wd); wd_on = 1;
   return 0;
 }
 
@@ -783,7 +805,7 @@ static void su_loop_init(void) {
   else { z.m = (int) fi_live - m0; z.f = nfds() - f0; }
   unit_report("loop_init", rc, a, z, "");
   if (rc == 0) {
-    uv_timer_init(&L, &wd); uv_timer_start(&wd, wd_cb, 4000, 0); uv_unref((uv_handle_t*) &wd); wd_on = 1;
+    uv_timer_init(&L, &wd); uv_timer_start(&wd, wd_cb, 2000, 0); uv_unref((uv_handle_t*) &wd); wd_on = 1;
     loop_end();
   }
 }
